@@ -94,6 +94,50 @@ theorem C11_isolation_accepted (honest : String → Bool) (evs : List IEv) (id :
 theorem C11_isolation_state (honest : String → Bool) (evs : List IEv) :
     Inv honest (C11Iso.run honest {} evs) := inv_run C11_wire_conv evs {} (inv_init honest)
 
+/-! ### the ghost fields are faithful
+
+`SessG` = a `Model/Sess` session plus the history the statement is about.  On a live session (no
+slice-bounds panic has been flagged: C05 proves none can be under its hypotheses; a flagged panic
+freezes the ghost session, the real process has crashed) the session component of every step is the
+`Model/Sess` function, and `rd` / `wr` record exactly what `Read` returned / `WriteBuffers` accepted. -/
+
+/-- the listener's environment is the one named in the task: `kcpInput s d = (Sess.packetInput s d now).s`,
+`init conv = Sess.new conv`, `closeFx` = the flush of `Close` -/
+theorem C11_world_is_sess (now : U32) (x : SessG) (hd : x.dead = false) :
+    (∀ d, (x.s.packetInput d now).panic = false → ((world now).kcpInput x d).s = (x.s.packetInput d now).s) ∧
+    (∀ conv, ((world now).init conv).s = Sess.new conv ∧ ((world now).init conv).rd = [] ∧
+      ((world now).init conv).dead = false) ∧
+    ((x.s.update now).panic = false → ((world now).closeFx x).s = { x.s with k := (x.s.update now).k } ∧
+      ((world now).closeFx x).rd = x.rd) := by
+  refine ⟨fun d hp => ?_, fun conv => ⟨rfl, rfl, rfl⟩, fun hp => ?_⟩
+  · show (sessStep x (.input d now)).s = _
+    unfold sessStep
+    simp only [hd, Bool.false_eq_true, if_false, hp]
+  · show (sessStep x (.update now)).s = _ ∧ (sessStep x (.update now)).rd = _
+    unfold sessStep
+    simp only [hd, Bool.false_eq_true, if_false, hp, and_self]
+
+/-- `rd` grows by exactly what `Read` returns, nothing else changes it; `wr` grows by exactly the slices
+of an admitted `WriteBuffers` -/
+theorem C11_ghost_faithful (x : SessG) (hd : x.dead = false) :
+    (∀ blen, (sessStep x (.read blen)).s = (x.s.read blen).s ∧ (sessStep x (.read blen)).rd = x.rd ++ (x.s.read blen).data) ∧
+    (∀ d now, (sessStep x (.input d now)).rd = x.rd ∧ (sessStep x (.input d now)).wr = x.wr) ∧
+    (∀ now, (sessStep x (.update now)).rd = x.rd ∧ (sessStep x (.update now)).wr = x.wr) ∧
+    (∀ v now, (x.s.writeBuffers v now).panic = false → (x.s.writeBuffers v now).blocked = false →
+      (sessStep x (.write v now)).s = (x.s.writeBuffers v now).s ∧ (sessStep x (.write v now)).wr = x.wr ++ v.flatten ∧
+      (sessStep x (.write v now)).rd = x.rd) := by
+  refine ⟨fun blen => ?_, fun d now => ?_, fun now => ?_, fun v now hp hb => ?_⟩
+  · unfold sessStep
+    simp only [hd, Bool.false_eq_true, if_false, and_self]
+  · unfold sessStep
+    simp only [hd, Bool.false_eq_true, if_false]
+    split <;> exact ⟨rfl, rfl⟩
+  · unfold sessStep
+    simp only [hd, Bool.false_eq_true, if_false]
+    split <;> exact ⟨rfl, rfl⟩
+  · unfold sessStep
+    simp only [hd, Bool.false_eq_true, if_false, hp, hb, and_self]
+
 /-! ### no cross stall -/
 
 variable {σ : Type}
